@@ -1239,7 +1239,75 @@ def check_cache_results(repo, chk, pid):
     chk.ok(oid, 'R11', 'outrank/', 'results of cached functions', f'{len(funcs)} function(s) on this property\'s path, {n_cached} cached function(s) in the package: no cached result is changed in place', inspected=max(1, len(funcs)))
 
 
+# ---------------------------------------------------------------------------
+# H10 - an accumulator that is read after a loop is not re-created inside it
+# ---------------------------------------------------------------------------
+
+def reset_accumulators(fn):
+    """Containers bound ONLY inside a loop body (to a fresh empty container, at the top level of that body), filled inside the loop and read after
+    it: each iteration starts from an empty container, so what is read after the loop holds the last iteration only.
+    Returns [(name, binding, loop, first read after the loop)]."""
+    par = {}
+    for p in ast.walk(fn):
+        for c in ast.iter_child_nodes(p):
+            par[c] = p
+    own = [n for n in ast.walk(fn)]
+    inner = {id(y) for x in own if isinstance(x, (ast.FunctionDef, ast.AsyncFunctionDef, ast.Lambda)) and x is not fn for y in ast.walk(x) if y is not x}
+    params = {a.arg for a in fn.args.posonlyargs + fn.args.args + fn.args.kwonlyargs}
+    out = []
+    binds = {}
+    for n in own:
+        if id(n) in inner:
+            continue
+        if isinstance(n, ast.Name) and isinstance(n.ctx, (ast.Store, ast.Del)):
+            binds.setdefault(n.id, []).append(n)
+    for lp in own:
+        if not isinstance(lp, ast.For) or id(lp) in inner:
+            continue
+        for st in lp.body:
+            if not (isinstance(st, (ast.Assign, ast.AnnAssign)) and st.value is not None):
+                continue
+            tg = st.targets[0] if isinstance(st, ast.Assign) and len(st.targets) == 1 else getattr(st, 'target', None)
+            if not isinstance(tg, ast.Name) or tg.id in params or len(binds.get(tg.id, [])) != 1:
+                continue
+            v = st.value
+            empty = (isinstance(v, (ast.Dict, ast.List, ast.Set)) and not (getattr(v, 'keys', None) or getattr(v, 'elts', None))) or \
+                    (isinstance(v, ast.Call) and not v.args and not v.keywords and ast.unparse(v.func) in ('dict', 'list', 'set', 'defaultdict', 'OrderedDict', 'Counter', 'collections.OrderedDict', 'collections.Counter')) or \
+                    (isinstance(v, ast.Call) and ast.unparse(v.func) in ('defaultdict', 'collections.defaultdict') and len(v.args) == 1 and not v.keywords)
+            if not empty:
+                continue
+            D = tg.id
+            end = getattr(lp, 'end_lineno', lp.lineno)
+            inside = [x for x in ast.walk(lp) if isinstance(x, ast.Name) and x.id == D and x is not tg]
+            filled = any((isinstance(par.get(x), ast.Subscript) and isinstance(par[x].ctx, ast.Store) and par[x].value is x) or
+                         (isinstance(par.get(x), ast.Attribute) and par[x].attr in MUTATORS and isinstance(par.get(par[x]), ast.Call) and par[par[x]].func is par[x]) for x in inside)
+            # handed on inside the loop (appended to an outer list, passed to a call, yielded, returned): a per-iteration object that is consumed there
+            consumed = any((isinstance(par.get(x), ast.Call) and x in par[x].args) or isinstance(par.get(x), (ast.Return, ast.Yield, ast.keyword, ast.Tuple, ast.List, ast.Dict)) or
+                           (isinstance(par.get(x), ast.Assign) and par[x].value is x) for x in inside if isinstance(x.ctx, ast.Load))
+            after = [x for x in own if isinstance(x, ast.Name) and x.id == D and isinstance(x.ctx, ast.Load) and id(x) not in inner and x.lineno > end and not any(x is y for y in ast.walk(lp))]
+            # the loop is itself inside another loop that encloses the read: then "after" is still per outer iteration - fine, same reasoning applies
+            if filled and not consumed and after:
+                out.append((D, st, lp, after[0]))
+    return out
+
+
+def check_accumulators(repo, chk, pid):
+    roots = ROOTS.get(pid)
+    if not roots:
+        return
+    ix = index(repo)
+    oid = f'{pid}.H10'
+    funcs = ix.closure(roots, False)
+    for key in sorted(funcs):
+        for D, st, lp, rd in reset_accumulators(ix.funcs[key])[:1]:
+            chk.bad(oid, 'R13', site(repo, key[0], key[1], st), f'for {norm(lp.target)} in {norm(lp.iter)[:40]}: {norm(st)[:40]} ... (after the loop) {D}',
+                    f'`{D}` is created inside the loop `for {norm(lp.target)} in ...`, filled there and read after the loop: every iteration starts from an empty container, so what is read after the loop holds '
+                    'the entries of the LAST iteration only - the entries of all earlier iterations are lost')
+    chk.ok(oid, 'R13', 'outrank/', 'accumulators read after a loop', f'{len(funcs)} function(s) on this property\'s path: none re-creates inside a loop a container it reads after the loop', inspected=max(1, len(funcs)))
+
+
 def run(repo, chk, pid):
+    check_accumulators(repo, chk, pid)
     check_cache_results(repo, chk, pid)
     check_memos(repo, chk, pid)
     check_class_state(repo, chk, pid)
